@@ -147,6 +147,97 @@ Proof.
   - now apply comps_ok_plain.
 Qed.
 
+(* ------------------------------------------------------------------ the string of a path spelled relative to a working directory *)
+Definition dd : string := "..".
+Definition no_dotdot (p : list string) : Prop := ~ In dd p.
+
+Fixpoint lead_dd (p : list string) : nat :=
+  match p with
+  | x :: r => if String.eqb x dd then S (lead_dd r) else 0
+  | [] => 0
+  end.
+
+Lemma lead_dd_repeat k s : no_dotdot s -> lead_dd (repeat dd k ++ s) = k.
+Proof.
+  intro H. induction k as [|k IH]; cbn [repeat app lead_dd].
+  - destruct s as [|x s]; [reflexivity|]. cbn [lead_dd]. destruct (String.eqb x dd) eqn:E; [|reflexivity].
+    apply String.eqb_eq in E. subst x. exfalso. apply H. now left.
+  - now rewrite String.eqb_refl, IH.
+Qed.
+
+Lemma relpath_shape c : forall p, no_dotdot p -> exists k s, relpath c p = repeat dd k ++ s /\ k <= List.length c /\ no_dotdot s.
+Proof.
+  induction c as [|x c IH]; intros p Hp.
+  - exists 0, p. destruct p; cbn; repeat split; try lia; exact Hp.
+  - destruct p as [|y p].
+    + exists (List.length (x :: c)), []. cbn [relpath]. rewrite app_nil_r. repeat split; [lia|intros []].
+    + cbn [relpath]. destruct (String.eqb x y) eqn:E.
+      * assert (Hp' : no_dotdot p) by (intro X; apply Hp; now right).
+        destruct (IH p Hp') as [k [s [-> [Hk Hs]]]]. exists k, s. repeat split; [cbn [List.length]; lia|exact Hs].
+      * exists (List.length (x :: c)), (y :: p). repeat split; [lia|exact Hp].
+Qed.
+
+Lemma relpath_injective c : forall p1 p2, no_dotdot p1 -> no_dotdot p2 -> relpath c p1 = relpath c p2 -> p1 = p2.
+Proof.
+  induction c as [|x c IH]; intros p1 p2 H1 H2 E.
+  - destruct p1, p2; cbn in E; congruence.
+  - assert (Hmis : forall y p q, no_dotdot (y :: p) -> no_dotdot q -> String.eqb x y = false ->
+                     relpath c q = repeat dd (List.length (x :: c)) ++ y :: p -> False).
+    { intros y p q Hyp Hq _ Eq. destruct (relpath_shape c q Hq) as [k [s [Es [Hk Hs]]]]. rewrite Es in Eq.
+      apply (f_equal lead_dd) in Eq. rewrite !lead_dd_repeat in Eq by assumption. cbn [List.length] in Eq. lia. }
+    assert (Hnil : forall q, no_dotdot q -> relpath c q = repeat dd (List.length (x :: c)) -> False).
+    { intros q Hq Eq. destruct (relpath_shape c q Hq) as [k [s [Es [Hk Hs]]]]. rewrite Es in Eq.
+      rewrite <- (app_nil_r (repeat dd (List.length (x :: c)))) in Eq.
+      apply (f_equal lead_dd) in Eq. rewrite !lead_dd_repeat in Eq; [cbn [List.length] in Eq; lia|intros []|exact Hs]. }
+    destruct p1 as [|y1 p1], p2 as [|y2 p2]; [reflexivity| | |].
+    + cbn [relpath] in E. destruct (String.eqb x y2) eqn:E2.
+      * exfalso. apply (Hnil p2); [intro X; apply H2; now right|now symmetry].
+      * apply (f_equal (@List.length string)) in E. rewrite app_length, !repeat_length in E. cbn [List.length] in E. lia.
+    + cbn [relpath] in E. destruct (String.eqb x y1) eqn:E1.
+      * exfalso. apply (Hnil p1); [intro X; apply H1; now right|exact E].
+      * apply (f_equal (@List.length string)) in E. rewrite app_length, !repeat_length in E. cbn [List.length] in E. lia.
+    + assert (H1' : no_dotdot p1) by (intro X; apply H1; now right). assert (H2' : no_dotdot p2) by (intro X; apply H2; now right).
+      cbn [relpath] in E. destruct (String.eqb x y1) eqn:E1, (String.eqb x y2) eqn:E2.
+      * apply String.eqb_eq in E1, E2. subst y1 y2. f_equal. now apply IH.
+      * exfalso. now apply (Hmis y2 p2 p1 H2 H1' E2).
+      * exfalso. apply (Hmis y1 p1 p2 H1 H2' E1). now symmetry.
+      * now apply app_inv_head in E.
+Qed.
+
+(* the components of the path object handed to lint_file, as the user spelled the target *)
+Theorem spelled_injective sp p1 p2 : no_dotdot p1 -> no_dotdot p2 -> spelled sp p1 = spelled sp p2 -> p1 = p2.
+Proof.
+  intros H1 H2. destruct sp as [|c|d]; cbn [spelled].
+  - trivial.
+  - now apply relpath_injective.
+  - apply app_inv_head.
+Qed.
+
+(* ... and its string: distinct files of the project have distinct path strings under every spelling of the target *)
+Theorem spelled_key_injective sp p1 p2 :
+  comps_ok (spelled sp p1) -> comps_ok (spelled sp p2) -> no_dotdot p1 -> no_dotdot p2 ->
+  pjoin (spelled sp p1) = pjoin (spelled sp p2) -> p1 = p2.
+Proof.
+  intros [N1 C1] [N2 C2] H1 H2 E. apply (f_equal la) in E. rewrite !la_pjoin in E. apply ljoin_inj in E.
+  - apply map_la_inj in E. now apply (spelled_injective sp).
+  - destruct (spelled sp p1); [congruence|discriminate].
+  - destruct (spelled sp p2); [congruence|discriminate].
+  - now apply comps_ok_plain.
+  - now apply comps_ok_plain.
+Qed.
+
+(* the memo is transparent for the runs of the model under every spelling: named files *)
+Corollary run_files_with_memo_spelled q abs sp s ps :
+  Forall (fun p => comps_ok (spelled sp p) /\ no_dotdot p) ps ->
+  fst (run_seq_memo (fun p => pjoin (spelled sp p)) q abs (load_patterns q s) (chk_file q sp) [] ps) = run_files q abs sp s ps.
+Proof.
+  intro Hd. unfold run_files.
+  apply (memo_transparent (fun p => pjoin (spelled sp p)) q abs _ _ (fun p => comps_ok (spelled sp p) /\ no_dotdot p)).
+  - intros p1 p2 [C1 D1] [C2 D2]. now apply spelled_key_injective.
+  - apply sound_nil.
+  - exact Hd.
+Qed.
+
 (* keyed by the file name instead (one memo entry for src/x.py and gen/x.py), the memo changes what is linted *)
 Example memo_keyed_by_name_refuted :
   let key := fun p : list string => last p "" in
